@@ -178,6 +178,7 @@ struct cparams { int level, flush, gzip_flag, hist_bits, huff, lbuf, api, cin, c
 enum { API_STATELESS, API_ONECALL, API_CHUNKED };
 enum { HUFF_DEFAULT, HUFF_STATIC, HUFF_CUSTOM };
 static struct isal_hufftables c_custom_ht;
+static uint32_t C_LB_BYTES; /* non-zero: level_buf_size to use instead of the named size (sizes between the named ones are legal too) */
 static int C_LB_OFF; /* 0: level_buf ends at a guard page; else its offset from the start of its mapping (multiples of 16) */
 
 static const char *cparams_str(const struct cparams *p)
@@ -197,7 +198,7 @@ static int c_deflate(const struct cparams *p, uint8_t *in, size_t len, uint8_t *
 	uint8_t *lb = NULL;
 	uint32_t lbs = 0;
 	if (p->level > 0 && p->lbuf != LB_NULL) {
-		lbs = lb_size(p->level, p->lbuf);
+		lbs = C_LB_BYTES ? C_LB_BYTES : lb_size(p->level, p->lbuf);
 		/* the level buffer is "generic memory" (igzip_lib.h): C_LB_OFF != 0 puts it at that offset of its mapping (16-byte aligned only) instead of end-flush */
 		lb = C_LB_OFF ? g_alloc_off(lbs, C_LB_OFF) : g_alloc(lbs, G_END);
 	}
